@@ -2,7 +2,7 @@
 import json, os, random, re, shutil, subprocess, sys, time, hashlib, glob
 
 VERIF = os.path.dirname(os.path.dirname(os.path.dirname(os.path.abspath(__file__))))
-LEAN = os.path.join(VERIF, 'lean')
+LEAN = os.environ.get('VSB_VERIF_LEAN_DIR') or os.path.join(VERIF, 'lean')     # (the override serves development copies only)
 CACHE = os.path.join(VERIF, '.cache')
 # evidence normally goes to /verif/evidence; mutant trials (bin/try-mutant) redirect it
 EVIDENCE = os.environ.get('VSB_VERIF_EVIDENCE_DIR') or os.path.join(VERIF, 'evidence')
